@@ -406,7 +406,7 @@ class Tables:
                                     t2 = self.tag_expr(ctx, body['args'][0])
                                     nb2 = node_of(body['args'][0])
                                     rows.append({'pos': org, 'guard': ((enum, tuple(sorted(vs))),), 'tags': t2,
-                                                 'other': ctx.origin(nb2) if nb2 is not None else None, 'line': e['ln']})
+                                                 'other': (ctx.origin(nb2) or ('<node>', 'handed to the helper')) if nb2 is not None else None, 'line': e['ln']})
                             continue
                         if src and src[0] == 'let':
                             ts = self.tag_expr(ctx, src[1])
